@@ -21,7 +21,10 @@ def main():
     jobs = json.loads(sys.stdin.read())
     res = []
     for j in jobs:
-        if j["kind"] == "editseq":
+        if j["kind"] == "strings":
+            outs = fc.run_strings(j["specs"], j["req_h"], j["texts"])
+            res.append({"answers": [fc.norm_answer(x) for x in outs], "mutated": False})
+        elif j["kind"] == "editseq":
             outs = fc.run_editseq(j["specs"], j["req_h"], ct.graph_from_py(j["graph"]), j["events"])
             res.append({"answers": [x if x[0] == "MUTATED" else fc.norm_answer(x) for x in outs], "mutated": any(x[0] == "MUTATED" for x in outs)})
         elif j["kind"] == "steps":
